@@ -106,8 +106,43 @@ var asyncRunners = map[string]bool{
 	"(*lib/threading.RoutineGroup).RunSafe": true,
 }
 
+// c10Funcs lists the functions of the package whose bodies run as part of it: p.PkgFuncs plus the
+// bound-method wrappers (`x.m` used as a function value) into which a program variant has inlined
+// the method. Such a wrapper IS the method's body over the captured receiver, but it has no parent
+// and belongs to no package, so PkgFuncs does not list it while the method itself is hidden (inlined
+// at every use): without this the body would be invisible to every rule that enumerates the package.
+func c10Funcs(p *core.Prog, rel string) []*ssa.Function {
+	out := append([]*ssa.Function(nil), p.PkgFuncs(rel)...)
+	seen := map[*ssa.Function]bool{}
+	for _, f := range out {
+		seen[f] = true
+	}
+	for i := 0; i < len(out); i++ {
+		for _, b := range out[i].Blocks {
+			for _, in := range b.Instrs {
+				mc, ok := in.(*ssa.MakeClosure)
+				if !ok {
+					continue
+				}
+				if g, ok := mc.Fn.(*ssa.Function); ok && !seen[g] && g.Blocks != nil && inlinedBoundWrapper(g) {
+					seen[g] = true
+					out = append(out, g)
+					// the literals of the inlined method live on as closures of the wrapper
+					for _, a := range core.WithAnon(g)[1:] {
+						if !seen[a] && a.Blocks != nil {
+							seen[a] = true
+							out = append(out, a)
+						}
+					}
+				}
+			}
+		}
+	}
+	return out
+}
+
 func newPkgGraph(p *core.Prog, rel string) *pkgGraph {
-	g := &pkgGraph{p: p, funcs: p.PkgFuncs(rel), in: map[*ssa.Function][]cgEdge{}, out: map[*ssa.Function][]cgEdge{},
+	g := &pkgGraph{p: p, funcs: c10Funcs(p, rel), in: map[*ssa.Function][]cgEdge{}, out: map[*ssa.Function][]cgEdge{},
 		escaped: map[*ssa.Function]string{}, inPkg: map[*ssa.Function]bool{}}
 	for _, f := range g.funcs {
 		g.inPkg[f] = true
